@@ -252,12 +252,12 @@ PROPS = {
                       "order (opsOf_chain) and the entity's first operation is the root's whatever is appended or merged (first_op_is_roots, "
                       "append_keeps_first). Not modelled: how encoding/json renders strings/numbers, UTF-8 validity, decimal rendering of tree "
                       "entry names, git's transfer of reachable blobs - these are compared on every generated case (stored blobs vs the "
-                      "model's tree, read-back on the same and on a second replica after push/pull, file availability).",
+                      "model's tree, read-back on the same and on a second replica after push/pull, file availability). Since round 5 the string layer of encoding/json is inside the model (Model/JsonStr: what is written for every character, with HTML escaping, and what the decoder reads, surrogate pairs and lone surrogates included): json_string_roundtrip proves decode (encode s) = s for every text, json_string_injective that different texts are stored differently; the model is compared with json.Marshal / json.Unmarshal on every character below U+3100, on mixtures and on generated escape forms.",
         "level_note": "Trusted: Lean kernel, harness. Hash function H is a parameter (ids are assumed to be H of the stored form, as IdOperation "
                       "and unmarshallPack both hash the same bytes). nil and empty slices are identified (Go reads both as length 0).",
         "required_theorems": ["fromJ_toJ", "pack_roundtrip", "op_id_stable", "tree_roundtrip", "tree_wrong_version", "extra_tree_covers",
                               "splitRuns_flatten", "splitRuns_nonempty", "splitRuns_same_author", "sortPacks_chain", "opsOf_chain",
-                              "first_op_is_roots", "append_keeps_first"],
+                              "first_op_is_roots", "append_keeps_first", "json_string_roundtrip", "json_string_injective"],
         "slices": ["C04"],
         "rule": "bugs built from the operation constructors (all 8 kinds, unicode / whitespace / long text / empty-but-valid fields, metadata, "
                 "real attachment blobs, 3 authors alternating inside one staging area), committed in random chunkings; compared: ids, "
